@@ -1759,6 +1759,13 @@ inline bool Chunk::SafeToDeleteNl() const
    {
       return(false);
    }
+
+   // the line structure of a disabled region (text between the disable/enable markers) is kept
+   if (  tmp->Is(CT_IGNORED)
+      || GetNext()->Is(CT_IGNORED))
+   {
+      return(false);
+   }
    return(tmp->IsSamePreproc(GetNext()));
 }
 
